@@ -393,6 +393,20 @@ func extProdScenarios(tier string) []engine.Scenario {
 	for _, pw2 := range []int{1, 2, 3, 4, 5} {
 		scs = append(scs, extProdScenario(epConfig{q29, 0, 0, -1, pw2, true}))
 	}
+	// lazy-accumulation margins: the P and Q accumulators are reduced every (overflow margin) digits; chains with
+	// many RNS digits and 61-bit primes on one side only put the digit count above / at / below each margin.
+	manyQ := func(bits, n int) []uint64 { return ref.PrimesNear(uint64(1)<<bits, 1<<6, n, true) }
+	p61 := ref.PrimesNear(uint64(1)<<61, 1<<6, 14, true)
+	for _, m := range []shape{
+		{"q10x30-p61", 4, manyQ(30, 10), p61[:2]}, // 5 digits with 2 P primes, 10 with 1: P margin (~4) exceeded, Q margin huge
+		{"q12x45-p61", 4, manyQ(45, 12), p61[:2]}, // 6 / 12 digits
+		{"q8x61-p61", 4, p61[2:10], p61[:2]},      // 4 / 8 digits of 61-bit primes: at / above both margins
+		{"q12x61-p61", 4, p61[2:14], p61[:2]},     // 6 / 12 digits
+	} {
+		for np := 1; np <= 2; np++ {
+			scs = append(scs, extProdScenario(epConfig{m, np, len(m.q) - 1, np - 1, 0, true}))
+		}
+	}
 	// coefficient-domain input ciphertexts (parameters with NTTFlag=false): a few configurations per code path
 	sh := shapes(4)
 	for _, e := range []epConfig{
